@@ -8,6 +8,7 @@ import (
 // simState is the generator's rough idea of the chain (guidance only; never used as an oracle).
 type simState struct {
 	justAdmitted int // validator admitted most recently (hazard: operate on it again right away)
+	justUnjailed int // validator unjailed most recently, -1 if none
 	power   map[int]int64 // active validators -> power
 	pending map[int]bool
 	removed map[int]bool
@@ -112,7 +113,7 @@ func genHistory(r *rand.Rand, profile string) History {
 		w = profiles["mixed"]
 	}
 	g := genGenesis(r, profile)
-	s := &simState{power: map[int]int64{}, pending: map[int]bool{}, removed: map[int]bool{}, jailed: map[int]bool{}, history: map[int][]int64{}, next: len(g.Tokens)}
+	s := &simState{power: map[int]int64{}, pending: map[int]bool{}, removed: map[int]bool{}, jailed: map[int]bool{}, history: map[int][]int64{}, next: len(g.Tokens), justUnjailed: -1}
 	for i, t := range g.Tokens {
 		s.power[i] = t / 1_000_000
 	}
@@ -142,6 +143,7 @@ func genHistory(r *rand.Rand, profile string) History {
 			victimLeft--
 			if victimLeft == 0 {
 				s.jailed[victim] = true
+				s.history[victim] = append(s.history[victim], s.power[victim])
 				delete(s.power, victim)
 			}
 		} else if b > 1 && r.Intn(12) == 0 && len(s.power) > 0 {
@@ -268,7 +270,7 @@ func (s *simState) genWorkflow(r *rand.Rand) MsgSpec {
 
 func (s *simState) genHazard(r *rand.Rand, g Genesis) MsgSpec {
 	M := uint64(1_000_000)
-	switch r.Intn(14) {
+	switch r.Intn(17) {
 	case 12, 13: // operate again on the validator admitted last (same block or the next)
 		v := s.justAdmitted
 		if _, ok := s.power[v]; ok {
@@ -302,6 +304,7 @@ func (s *simState) genHazard(r *rand.Rand, g Genesis) MsgSpec {
 			if r.Intn(2) == 0 {
 				delete(s.jailed, v)
 				s.power[v] = 1
+				s.justUnjailed = v
 			}
 			return MsgSpec{Kind: "unjail", Sender: v, Val: v}
 		}
@@ -321,6 +324,23 @@ func (s *simState) genHazard(r *rand.Rand, g Genesis) MsgSpec {
 	case 7: // application reusing an operator or key
 		id := r.Intn(poolSize)
 		return createMsg(id, r.Intn(poolSize))
+	case 9: // restore a validator that was slashed and unjailed to exactly an amount it had before
+		if v := s.justUnjailed; v >= 0 {
+			if hs := s.history[v]; len(hs) > 0 {
+				if _, ok := s.power[v]; ok {
+					return sp(adminID, v, uint64(hs[len(hs)-1])*M, r.Intn(2) == 0)
+				}
+			}
+		}
+	case 10: // the same address, spelled in upper case
+		m := pick(r, []MsgSpec{createMsg(s.next%poolSize, r.Intn(poolSize)), sp(adminID, s.anyActive(r), uint64(1+r.Intn(20))*M, true),
+			{Kind: "removepending", Sender: adminID, Val: s.next % poolSize}, createMsg((s.next+poolSize-1)%poolSize, r.Intn(poolSize))})
+		m.Upper = true
+		return m
+	case 11: // a jailed (possibly long unbonded) validator applies again with another key
+		if v, ok := anyKey(r, s.jailed); ok {
+			return createMsg(v, r.Intn(poolSize))
+		}
 	case 8: // big unsafe jump
 		v := s.anyActive(r)
 		p := uint64(pick(r, []int64{1, 50, 1000, 1_000_000}))
